@@ -21,8 +21,9 @@ THEOREMS = ['Props.C13.' + t for t in [
     'layout_ok', 'timing_ok', 'timing_toughreact_ok', 'incon_roundtrip_partial', 'excluded_conv3', 'excluded_toughreact_bare', 'blocks_in_order', 'flavour_preserved',
     'timing_iff_not_reset', 'variables_to_13_decimals', 'porosity_to_9_decimals', 'integers_exact', 'num_variables_needed',
     'name_written_then_read', 'name_read_then_written', 'fixed_names_have_no_blank',
-    'rewrite_real_stable_partial', 'fmtE_reprint_stable', 'excluded_reduced_precision_carry', 'excluded_header_double_rounding']]
-LEVEL_TEXT = ('Proof: 20 Lean theorems (no sorry) about the executable model of t2incon.read/write. Core: incon_roundtrip_partial - for EVERY '
+    'rewrite_real_stable_partial', 'fmtE_reprint_stable', 'excluded_reduced_precision_carry', 'excluded_header_double_rounding',
+    'header_ok', 'incon_write_fixpoint_partial']]
+LEVEL_TEXT = ('Proof: 22 Lean theorems (no sorry) about the executable model of t2incon.read/write. Core: incon_roundtrip_partial - for EVERY '
               'well-formed initial-conditions object (any number of blocks with distinct canonical valid names, n >= 1 real variables per block '
               'with num_variables = n or n <= 4, porosity / nseq-nadd / permeability triples present or absent per block, TOUGH2 or TOUGHREACT, '
               'timing present or absent, reset on or off, either conversion dictionary) whose write succeeds, a fresh read of the written lines '
@@ -31,9 +32,10 @@ LEVEL_TEXT = ('Proof: 20 Lean theorems (no sorry) about the executable model of 
               'that fits), porosity/permeability to 9, integers exactly. Name quirk proved in both directions for canonical / file-form names. '
               'layout_ok/timing_ok: decide over the t2incon table regenerated from /repo. PARTIAL: (1) incon_roundtrip_partial excludes convention-3 / '
               'invalid names and TOUGHREACT without permeabilities (both known findings, with machine-checked witnesses excluded_*); (2) "writing '
-              'it again reproduces the file byte for byte" is proved per value only (rewrite_real_stable_partial: a re-read real is re-written with '
-              'the same text when its first write kept full precision; fmtE_reprint_stable) - the whole-file composition is not proved, and the '
-              'clause is false at two witnessed classes (reduced precision + carry; 6-decimal header time), both known findings.')
+              'it again reproduces the file" is proved for the whole file as incon_write_fixpoint_partial under NoPrecisionLost (no value needed '
+              'the width guard, header time stable), values handed back as exact decimals (A-float); the two excluded classes are witnessed '
+              '(excluded_reduced_precision_carry, excluded_header_double_rounding) and are known findings. The split of the text into lines is '
+              'modelled and tied, not proved.')
 LEVEL_NOTE = ('Tie: Gen/Specs.lean + Gen/Conventions.lean regenerated every run; compiled model vs real write (bytes), read (canonical dump, incl. '
               'hand-made simulator-style files with CRLF/D exponents/short lines and the 7 shipped files) and second-generation write (bytes, '
               'through an exact model of float() rounding validated against CPython). Trusted: Lean kernel, the models, A-float for the '
